@@ -144,6 +144,31 @@ def run(chk: Check):
                 chk.violation(f"later-lines-lost:{cid}:{f.name}", f"after the text {v!r} had been refused as a value of other functions, the line @{cid}:{f.name}={v} was not processed normally: the attribute reads {got!r}", {"stream": list(stream), "chunks_at": [], "after": "the systematic pass: this text offered to every function of every class"})
                 break
 
+    # (a'') runs: the same kind of unwelcome line many times in a row ("no line the device can send", however many of
+    # them): k malformed / undecodable / error / invalid-UTF-8 lines back to back, then the two well-formed lines
+    run_kinds = {
+        "malformed": [b"junk", b"", b"@", b"@MAIN:VOL", b"MAIN:VOL=1", b"\x00\x00", b"@:=", b"hello world"],
+        "undecodable": [b"@MAIN:VOL=Auto Down", b"@TUN:FMFREQ=Auto Down", b"@MAIN:PWR=Maybe", b"@TUN:PRESET=x", b"@MAIN:MUTE="],
+        "error": [b"@UNDEFINED", b"@RESTRICTED"],
+        "invalid-utf8": [b"@MAIN:ZONENAME=\xff\xfe", b"@MAIN:VOL=\xc3", b"\x80\x80"],
+        "unknown": [b"@FOO:BAR=1", b"@MAIN:NOSUCH=1", b"@ZONE9:VOL=1.0"],
+    }
+    rrng = random.Random(chk.seed * 17 + 10)
+    for kind, pool in sorted(run_kinds.items()):
+        for k in ([2, 3, 5, 8, 13, 40, 200] if chk.tier == "quick" else [2, 3, 4, 5, 6, 8, 10, 13, 16, 20, 32, 40, 64, 100, 128, 200, 256, 1000, 5000]):
+            for mixed in (False, True):
+                lines = [rrng.choice(pool) for _ in range(k)] if mixed else [rrng.choice(pool)] * k
+                stream = b"@MAIN:VOL=-30.0\r\n" + b"".join(ln + b"\r\n" for ln in lines) + SENTINEL
+                infos, conn, insts, proto, err = run_impl(stream, [])
+                chk.count_case(["run", kind, k, mixed, [list(x) for x in lines[:3]]], True)
+                dist["run_lines"] = dist.get("run_lines", 0) + k
+                rep = {"stream": list(stream) if len(stream) < 3000 else list(stream[:3000]), "chunks_at": [], "run": {"kind": kind, "length": k, "line": lines[0].decode("latin-1")}}
+                if err:
+                    chk.violation(f"run:raises:{kind}", f"after {k} {kind} lines in a row the reader path raised {err[0]}: {err[1]}", rep)
+                    continue
+                if insts["MAIN"].function_handlers["VOL"].value != -12.5 or insts["SYS"].function_handlers["MODELNAME"].value != "Sentinel":
+                    chk.violation(f"run:later-lines-lost:{kind}", f"after {k} {kind} lines in a row (first: {lines[0]!r}) the two well-formed lines that followed were not processed", rep)
+
     # (b) random streams
     for si in range(n_streams):
         stream, kinds = gen_stream(rng, infos0, rec_lines, chk.tier)
@@ -291,6 +316,7 @@ def run(chk: Check):
     chk.cov["rule"] = (
         "real YncaProtocol.data_received -> real YncaConnection callbacks -> one real instance of each of the 23 subunit classes. "
         "(a) every (class, function) x every odd text (non-numeric, 'Auto Down', padded/exponent/unicode digits, empty, emoji ...) as one line; "
+        "(a'') runs of 2..200 (thorough: ..5000) malformed / undecodable / error / invalid-UTF-8 / unknown lines back to back, then two well-formed lines; "
         f"(b) {n_streams} random streams mixing recorded traffic, typed functions with odd texts, invalid UTF-8, NULs, malformed '@' variants, lone CR/LF and 1k-100k byte lines, "
         "randomly chunked; each followed by two well-formed lines that must still be processed. distinct by content; every case is non-trivial (carries at least one typed or malformed line)."
     )
